@@ -3,8 +3,8 @@ from . import ntt
 from ..runner import Ob
 META = dict(
     functions=['NTT_Goldilocks::NTT_Goldilocks (constructor, GMP calls on python integers)', 'NTT_Goldilocks::NTT', 'NTT_Goldilocks::NTT_iters', 'NTT_Goldilocks::reversePermutation', 'NTT_Goldilocks::root/log2/intt_idx', 'Goldilocks::parcpy', 'NTT_Goldilocks::~NTT_Goldilocks'],
-    bounds={'quick': 'object domain 2^s, s <= 5; transform size n = 2^d, 0 <= d <= s (and size 0); ncols 0..3; nphase, nblock: ALL uint64 values (symbolic, classes proved exhaustive); dst in {other, src, NULL}; buffer in {NULL, caller}; all input matrices, any representation',
-            'thorough': 's <= 7 (n <= 128), ncols 0..4, otherwise as quick'},
+    bounds={'quick': 'object domain 2^s, s <= 5; transform size n = 2^d, 0 <= d <= s (and size 0); ncols 0..3; nphase, nblock: ALL uint64 values (symbolic, classes proved exhaustive); dst in {other, src, NULL}; buffer in {NULL, caller}; all input matrices, any representation; plus n in {64,128,256} with concrete (nphase,nblock) in {(3,1),(2,1),(4,2)}',
+            'thorough': 's <= 7 (n <= 128), ncols 0..4, otherwise as quick; large concrete-schedule classes up to n = 1024'},
     outside=['sizes above the bound', 'the parallel execution (C12 shows it equals the sequential semantics executed here)', 'nThreads: all of {1,2,3,4,default} for size-1 transforms (where parcpy delivers the result), rotated over {1,3,default,2} elsewhere'],
     stubs=['GMP on python integers (constructor)', 'malloc/free tracking'],
     assumptions=['field-level mode: input words are arbitrary residue classes (representation-independent by the contracts of Goldilocks::add/sub/mul, re-proved bit-precisely in this run)',
@@ -30,6 +30,12 @@ def obligations(ctx, kind=KIND, prop='C03'):
         nts = (1, 2, 3, 4, 0) if (d == 0 and ncols > 1) else ((1, 3, 0, 2)[i % 4],)
         for nt in nts:
             obs.append(Ob('%s/s%d/d%d/c%d/%s/%s/t%d' % (k, s_, d, ncols, dstmode, 'buf' if buf else 'nobuf', nt), ntt.ob, (prop, k, s_, d, ncols, dstmode, buf), dict(nthreads=nt), weight=(1 << max(d, 0)) * max(ncols, 1)))
+    # large transforms with concrete schedule parameters (default 3/1 and two others): widens the size range at low cost
+    for d in ((6, 7, 8, 9, 10) if ctx.thorough else (6, 7, 8)):
+        for sched in ((3, 1), (2, 1), (4, 2)):
+            for ncols in ((1, 2) if sched != (4, 2) else (2,)):
+                if d >= 9 and (ncols > 1 or sched != (3, 1)): continue
+                obs.append(Ob('%s-large/n%d/c%d/nphase%d/nblock%d' % (kind, 1 << d, ncols, sched[0], sched[1]), ntt.ob, (prop, kind, d, d, ncols, 'other', False), dict(nthreads=(1, 3, 0, 2)[d % 4], sched=sched), weight=(1 << d) * ncols * 4))
     obs += contract_obs(ctx)
     return obs
 def contract_obs(ctx):
